@@ -7,9 +7,11 @@ CONSTANTS
   MaxFrag = 1
   MaxReq = 2
   MaxSteps = 0
+  Bodies = TRUE
 INVARIANT TypeOK
 INVARIANT PersistentNeverIdleDropped
 INVARIANT ClosedForAReason
+INVARIANT HeadOfPersistentExempts
 PROPERTY NoEarlyDrop
 PROPERTY ActivityRestarts
 CHECK_DEADLOCK FALSE
